@@ -24,7 +24,7 @@ Proof. vm_compute. reflexivity. Qed.
 Lemma short_cryst1_roundtrip :
   forallb (fun i => (long_symbol i || match cryst1_roundtrip i with Some j => Nat.eqb i j | None => false end)%bool) (upto 230) = true.
 Proof. vm_compute. reflexivity. Qed.
-Lemma long_symbols_are : filter long_symbol (upto 230) = [125; 126; 129; 130; 133; 134; 137; 138; 141; 142; 222; 224; 227; 228]%nat.
+Lemma long_symbols_are : filter long_symbol (upto 230) = [125; 126; 129; 130; 133; 134; 137; 138; 141; 142]%nat.
 Proof. vm_compute. reflexivity. Qed.
 Lemma long_cryst1_fails : forallb (fun i => match cryst1_roundtrip i with Some j => negb (Nat.eqb i j) | None => true end)
                                   (filter long_symbol (upto 230)) = true.
